@@ -3,7 +3,7 @@
 //! This module only re-exports items that are already `pub` inside private modules, so that an
 //! external model-checking harness can drive the real components. It adds no behaviour.
 
-pub use crate::congestion::{CongestionController, cubic::Cubic};
+pub use crate::congestion::{CongestionController, cubic::Cubic, tracing::TracingController};
 pub use crate::constants::{
     ACK_DELAY, DEFAULT_MAX_ACTIVE_STREAMS_PER_SOCKET, DEFAULT_REMOTE_INACTIVITY_TIMEOUT,
     IMMEDIATE_ACK_EVERY_RMSS, IPV4_HEADER, IPV6_HEADER, RX_BUF_SIZE_PER_VSOCK_DEFAULT, SACK_DEPTH,
